@@ -463,7 +463,7 @@ func (r *Runner) classify(res []HarnessResult) {
 		case "vacuous":
 			r.inconsistent(fmt.Sprintf("vacuous harness %s: %s", hr.Name, hr.Detail))
 		case "unsupported":
-			if r.Tier == "thorough" && hr.Reduced != "" && strings.Contains(hr.Detail, "more than") {
+			if r.Tier == "thorough" && hr.Reduced != "" && (strings.Contains(hr.Detail, "more than") || strings.Contains(hr.Detail, "budget exceeded")) {
 				// an engine limit (modelled map slots, events) hit at the deeper AND at the quick bounds by a shape the quick tier does not contain
 				r.Undecided = append(r.Undecided, hr.Name+": "+hr.Detail)
 				fmt.Printf("UNDECIDED property=%s harness=%s %s (also at the quick bounds)\n", r.Spec.ID, hr.Name, hr.Detail)
